@@ -95,6 +95,49 @@ theorem combineNoTrex_loses :
     Frag.combine [⟨{}, { defDur := 20 }, { hasDur := false, samples := [⟨0, 20, 5, 0⟩] }⟩] {} {} = [[⟨0, 20, 5, 0⟩]] := by
   decide
 
+/-! ### where the samples of an input fragment are (the sample source of Fragmentify / resegmenter / combine-segs) -/
+
+/-- **an explicit base_data_offset takes precedence** over default-base-is-moof and over the position of the traf
+    (ISO/IEC 14496-12 8.8.7.1) -/
+theorem base_explicit_wins (b : Nat) (dbm : Bool) (moofStart prevTrafEnd : Nat) (firstTraf : Bool) :
+    (Frag.TfhdBase.mk (some b) dbm).base moofStart prevTrafEnd firstTraf = b := rfl
+
+/-- without base_data_offset: the moof start for default-base-is-moof and for the first traf of a moof -/
+theorem base_default (dbm firstTraf : Bool) (moofStart prevTrafEnd : Nat) (h : dbm = true ∨ firstTraf = true) :
+    (Frag.TfhdBase.mk none dbm).base moofStart prevTrafEnd firstTraf = moofStart := by
+  rcases h with h | h <;> simp [Frag.TfhdBase.base, h]
+
+/-- the same from any previous-run end (induction form of `positions_written_are_read`) -/
+theorem runStarts_describe (base : Int) (prevEnd : Int) (l : List (Int × Bool × List Nat)) :
+    ((Frag.runStarts base prevEnd (Frag.describeRuns base prevEnd l)).zip (Frag.describeRuns base prevEnd l)).flatMap
+        (fun pr => Frag.offsetsFrom pr.1 pr.2.sizes) =
+      l.flatMap fun x => Frag.offsetsFrom x.1 x.2.2 := by
+  induction l generalizing prevEnd with
+  | nil => simp [Frag.describeRuns, Frag.runStarts]
+  | cons x rest ih =>
+    obtain ⟨p, om, sizes⟩ := x
+    simp only [Frag.describeRuns, Frag.runStarts]
+    by_cases hc : om = true ∧ p = prevEnd
+    · simp only [hc, and_self, if_true, List.zip_cons_cons, List.flatMap_cons]
+      rw [← hc.2, ih]
+    · simp only [hc, if_false, List.zip_cons_cons, List.flatMap_cons]
+      have : base + (p - base) = p := by omega
+      rw [this, ih]
+
+/-- **the reader's rule finds every sample where the writer put it**: whatever base the tfhd designates (explicit
+    base_data_offset — before, inside or behind the data, so that run offsets may be negative —, moof start), however
+    the runs' data blocks are ordered and spaced in the mdat, and whichever runs that directly follow their predecessor
+    (the first run: that start at the base) are written without data_offset, the positions resolved by 8.8.7.1 / 8.8.8.1
+    are those of the sample data -/
+theorem positions_written_are_read (h : Frag.TfhdBase) (moofStart : Nat) (l : List (Int × Bool × List Nat)) :
+    let base : Int := (h.base moofStart moofStart true : Nat)
+    Frag.samplePositions h moofStart (Frag.describeRuns base base l) = l.flatMap fun x => Frag.offsetsFrom x.1 x.2.2 := by
+  intro base
+  exact runStarts_describe base base l
+
+/-- non-vacuity: both flags set, base 100 ≠ moof start 40; runs at 130 (offset 30), 136 (following, no offset), 120 -/
+example : Frag.samplePositions ⟨some 100, true⟩ 40 [⟨some 30, [2, 4]⟩, ⟨none, [3]⟩, ⟨some 20, [5, 5]⟩] =
+    [130, 132, 136, 120, 125] := by decide
 /-- the Go functions the models of this property transcribe (committed table `spec/transcribed.json`, checked against
     the current source by the extractor on every run) all still exist -/
 theorem model_sources_exist :
